@@ -506,7 +506,10 @@ func c18LsAttr(r *rand.Rand, c *c18AttrCtx) PathAttributeInterface {
 		la.Link.UnidirectionalLinkDelay = &LsUnidirectionalLinkDelay{Flags: LsDelayMetricFlags{Anomalous: c18Bool(r)}, Delay: z(c18U24(r))}
 	}
 	if p() {
-		la.Link.MinMaxUnidirectionalLinkDelay = &LsMinMaxUnidirectionalLinkDelay{Flags: LsDelayMetricFlags{Anomalous: c18Bool(r)}, MinDelay: c18U24(r), MaxDelay: z(c18U24(r))}
+		la.Link.MinMaxUnidirectionalLinkDelay = &LsMinMaxUnidirectionalLinkDelay{Flags: LsDelayMetricFlags{Anomalous: c18Bool(r)}, MinDelay: c18U24(r), MaxDelay: c18U24(r)}
+		if c18Chance(r, 2) {
+			*la.Link.MinMaxUnidirectionalLinkDelay = LsMinMaxUnidirectionalLinkDelay{} // (C18) a measured delay of 0: the API cannot tell it from "absent"
+		}
 	}
 	if p() {
 		v := z(c18U24(r))
